@@ -147,8 +147,36 @@ Definition run_route (c impl : sexp) : sexp :=
         A (L cls);
         Lst [ verdict "wf_invoked_route" wf_inv; verdict "wf_best_service" wf_best ] ].
 
+(* ---- domain "slash" (C14): (oracles table request), impl = (obs(p) obs(p/)) ---- *)
+Definition has_tail_template (t : table) : bool :=
+  existsb (fun w => existsb (fun r => existsb (fun tok => is_tail (parse_tok false tok))
+                                              (tokenize (s_root w) ++ tokenize (r_rel r)))
+                            (s_routes w)) (t_services t).
+
+Definition run_slash (c impl : sexp) : sexp :=
+  let O := sx_oracles (sx_nth 0 c) in
+  let t := sx_table (sx_nth 1 c) in
+  let req := sx_request (sx_nth 2 c) in
+  let req2 := {| rq_method := rq_method req; rq_path := rq_path req ++ [slash];
+                 rq_headers := rq_headers req; rq_clen := rq_clen req |} in
+  let x1 := route_request O t req in
+  let x2 := route_request O t req2 in
+  let i1 := sx_nth 0 impl in
+  let i2 := sx_nth 1 impl in
+  let in_scope := match t_router t with Curly => true | Jsr311 => negb (has_tail_template t) end in
+  let cls := match x1 with
+             | RInvoke _ _ _ => "invoked"
+             | RError E404 => "404" | RError (E405 _) => "405" | RError E415 => "415" | RError E406 => "406"
+             | RPanic => "panic"
+             end%string in
+  Lst [ Lst [routed_obs t x1; routed_obs t x2];
+        Lst [ verdict "c14_same_outcome" (implb in_scope (sexp_eqb i1 i2)) ];
+        A (L cls);
+        Lst [ verdict "in_scope" in_scope ] ].
+
 Definition run_case (c impl : sexp) : sexp :=
   let dom := sx_str (sx_nth 0 c) in
   if str_eqb dom (L "cors") then run_cors (sx_nth 1 c) impl
   else if str_eqb dom (L "route") then run_route (sx_nth 1 c) impl
+  else if str_eqb dom (L "slash") then run_slash (sx_nth 1 c) impl
   else Lst [A (L "unknown-domain")].
